@@ -1,6 +1,7 @@
 package main
 
 import (
+	"sort"
 	"go/constant"
 	"go/token"
 	"go/types"
@@ -18,6 +19,7 @@ func checkC19(w *World, r *Report) {
 	r.Rule("C19.zero", "P7", "reported inflation is zero when the period start is after now (Minter.CalculateInflation), for the no-minting configuration (constant), and for every configuration whose end has passed (now after end => zero; now equal to end => either)", 4)
 	r.Rule("C19.units", "P9", "units of measure over SSA: in the two inflation formulas the year constant, the period length, the elapsed time and the step length are combined in one time scale and the rate returned is a pure number (amount x year / period / supply)", 2)
 	r.Rule("C19.start", "P6,P7", "= C02.start for the inflation query: the rate is computed for the current period (result #0 of the shared selection) from the start its predecessor's end gives (params.StartTime without predecessor) - the same start the emission uses", 2)
+	r.Rule("C19.formula", "P6,P7", "closed world: inside a period with positive supply every value an implementation returns has the period's Amount, the year constant, the supply and (linear) the period start and end resp. (exponential) StepDuration and AmountMultiplier in its backward slice (origins restricted to the edges live in that ordering) - no shortcut result", 2)
 	r.Rule("C19.guard", "P5", "the division by the supply is dominated by the false edge of supply <= 0, whose true edge returns zero", 2)
 	r.Rule("C19.operands", "P6,P8", "the divisor originates from bank.GetSupply(params.MintDenom), the period from the selection over the stored state, the time from the block header; the constant year evaluates to 365 x 24 h; the query returns this value", 5)
 	if !ro.checkFloors(r) {
@@ -129,6 +131,57 @@ func checkC19(w *World, r *Report) {
 		}
 		r.Check(ok && len(vals) > 0, "C19.zero", name+": now after end => zero", w.Pos(impl.Pos()), "every live return is ZeroDec()", "a period whose end has passed still reports a non-zero inflation")
 
+		// ---------- C19.formula (closed world) ----------
+		{
+			startP := paramOfType(impl, tTime, 0)
+			liveIn := ReachUnder(impl, OrderEval(term, func(a, b string) (int, bool) {
+				rank := map[string]int{"now": 0, "end": 1}
+				if (a == "supply" && b == "zero") || (a == "zero" && b == "supply") {
+					if a == "supply" {
+						return 1, true
+					}
+					return -1, true
+				}
+				return rankCmp(rank)(a, b)
+			}, func(t string) (bool, bool) { return false, t == "endptr" }))
+			lt := w.Tracer()
+			lt.Live, lt.LiveFn = liveIn, impl
+			okF := true
+			why := ""
+			nret := 0
+			for _, ret := range Returns(impl) {
+				if !liveIn.Blocks[ret.Block()] {
+					continue
+				}
+				nret++
+				o := lt.Origins(retVals(ret)[0])
+				need := map[string]bool{
+					"the total supply":   o.Visited(supplyP),
+					"the period's Amount": o.HasPath(".Amount"),
+					"annualisation (MulInt64)": o.HasOp("Dec.MulInt64"),
+				}
+				if strings.Contains(name, "Exponential") {
+					// the step reached enters by control (loop bound), not by data: only the data operands are required
+					need["StepDuration"] = o.HasPath("StepDuration")
+					need["AmountMultiplier"] = o.HasPath("AmountMultiplier")
+				} else {
+					need["the period start"] = startP != nil && o.Visited(startP)
+					need["the period end"] = o.Visited(endP)
+				}
+				var miss []string
+				for k, v := range need {
+					if !v {
+						miss = append(miss, k)
+					}
+				}
+				sort.Strings(miss)
+				if len(miss) > 0 {
+					okF = false
+					why = "a value returned inside the period (supply positive) does not depend on " + strings.Join(miss, ", ")
+				}
+			}
+			r.Check(okF && nret > 0, "C19.formula", name+": inside the period every result is the annualised rate", w.Pos(impl.Pos()), "every live return depends on amount, year, period/step data and supply", why)
+		}
 		// ---------- C19.guard ----------
 		n := 0
 		for _, s := range cg.Sites[impl] {
